@@ -160,6 +160,83 @@ func main() {
 		}
 		return true
 	})
+	// optional operators (MUTGEN_EXTRA=1; appended after the others so that the ids of the default set do not move):
+	// TAG — rename the element/attribute an `xml:"…"` struct tag names, or toggle its ,attr flag;
+	// STR — change a string constant that is compared with == / != or listed in a case clause
+	if os.Getenv("MUTGEN_EXTRA") != "" {
+		ast.Inspect(f, func(n ast.Node) bool {
+			switch x := n.(type) {
+			case *ast.Field:
+				if x.Tag == nil {
+					return true
+				}
+				raw, err := strconv.Unquote(x.Tag.Value)
+				if err != nil {
+					return true
+				}
+				i := strings.Index(raw, `xml:"`)
+				if i < 0 {
+					return true
+				}
+				j := strings.Index(raw[i+5:], `"`)
+				if j < 0 {
+					return true
+				}
+				val := raw[i+5 : i+5+j]
+				parts := strings.Split(val, ",")
+				name := parts[0]
+				set := func(nv string) func() func() {
+					return func() func() {
+						old := x.Tag.Value
+						x.Tag.Value = "`" + raw[:i+5] + nv + raw[i+5+j:] + "`"
+						return func() { x.Tag.Value = old }
+					}
+				}
+				if name != "" && name != "-" {
+					nv := strings.Join(append([]string{name + "x"}, parts[1:]...), ",")
+					muts = append(muts, mutation{line(x), "TAG", "xml:\"" + val + "\" → \"" + nv + "\"", set(nv)})
+				}
+				hasAttr := false
+				var rest []string
+				for _, p := range parts[1:] {
+					if p == "attr" {
+						hasAttr = true
+					} else {
+						rest = append(rest, p)
+					}
+				}
+				if hasAttr {
+					nv := strings.Join(append([]string{name}, rest...), ",")
+					muts = append(muts, mutation{line(x), "TAG", "xml:\"" + val + "\" → \"" + nv + "\" (attribute becomes element)", set(nv)})
+				}
+			case *ast.BinaryExpr:
+				if x.Op == token.EQL || x.Op == token.NEQ {
+					for _, e := range []ast.Expr{x.X, x.Y} {
+						if bl, ok := e.(*ast.BasicLit); ok && bl.Kind == token.STRING && len(bl.Value) > 2 {
+							bl2 := bl
+							muts = append(muts, mutation{line(bl), "STR", bl.Value + " → altered", func() func() {
+								old := bl2.Value
+								bl2.Value = old[:len(old)-1] + "x" + old[len(old)-1:]
+								return func() { bl2.Value = old }
+							}})
+						}
+					}
+				}
+			case *ast.CaseClause:
+				for _, e := range x.List {
+					if bl, ok := e.(*ast.BasicLit); ok && bl.Kind == token.STRING && len(bl.Value) > 2 {
+						bl2 := bl
+						muts = append(muts, mutation{line(bl), "STR", "case " + bl.Value + " → altered", func() func() {
+							old := bl2.Value
+							bl2.Value = old[:len(old)-1] + "x" + old[len(old)-1:]
+							return func() { bl2.Value = old }
+						}})
+					}
+				}
+			}
+			return true
+		})
+	}
 	idx, _ := os.Create(filepath.Join(out, "index.tsv"))
 	defer idx.Close()
 	base := strings.TrimSuffix(filepath.Base(path), ".go")
